@@ -49,7 +49,7 @@ def strategy_(draw, tier):
       max_nodes=10, min_nodes=2, leaf_profile='serializable', bts=('Config', 'Partial', 'ArgFactory'),
       kinds=['B', 'B', 'Bpos', 'list', 'tuple', 'dict', 'kdict', 'kdict', 'ddict', 'nt', 'set', 'fset', 'TV',
              'ltuple', 'ntuple'],
-      fns=['things:f2', 'things:h1', 'things:Base', 'things:LeafCls'],
+      fns=['things:f2', 'things:h1', 'things:Base', 'things:LeafCls', 'things:DataLoader', 'things:data_loader'],
       root_kinds=['B', 'B', 'list', 'dict', 'tuple', 'Bpos'], p_alias=0.75, tags=True))
   mode = draw(st.sampled_from(['roundtrip', 'roundtrip', 'roundtrip', 'unserializable', 'policy']))
   case = {'recipe': recipe, 'mode': mode}
